@@ -209,6 +209,18 @@ def replay_table(model, n=3, node=1, kr_desc=False):
         problems.append(f"m_i = {mi!r} != 1 at the table node p_i = {m[f'p{node}']!r}")
     if mf is not None and m["pf"] < m[f"p{node}"] and not (0 <= mf < 1):
         problems.append(f"frac-face pressure {m['pf']!r} < p_i maps to {mf!r}, outside [0, 1)")
+    if not problems:
+        # a constant factor on mobility (units, a permeability folded into the reference densities) scales the pseudopressure
+        # and leaves the *scaled* pseudopressure alone, however small or large the factor
+        for factor in (1e-18, 1e12):
+            with warnings.catch_warnings():
+                warnings.simplefilter("ignore")
+                with np.errstate(all="ignore"):
+                    o2 = fp.FlowPropertiesTwoPhase.from_table(pvt, krp, {k: m[k] * factor for k in RHO}, m["phi"], m["Sw"], m[f"p{node}"])
+                    ms2 = np.asarray(o2.pvt_props["m-scaled"], dtype=float)
+            if not np.allclose(ms2, ms, rtol=1e-9, atol=0) or abs(float(o2.m_i) - 1) > 1e-9:
+                problems.append(f"mobility scaled by {factor:g}: m-scaled {ms2.tolist()} (m_i = {float(o2.m_i)!r}) vs {ms.tolist()} unscaled")
+                break
     return bool(problems), {"what": "; ".join(problems) or "scaled pseudopressure increasing, 1 at p_i, frac face in [0,1)", "inputs": m}
 
 
